@@ -16,7 +16,8 @@ type TransactionIntent struct {
 
 func NewTransactionIntent(name string, priority int32) *TransactionIntent {
 	return &TransactionIntent{
-		name: name,
+		name:     name,
+		priority: priority,
 	}
 }
 
